@@ -49,6 +49,12 @@ CHECKS["C01"] = ("model_checking",
     "Programs come from a fixed skeleton family, not arbitrary Python; explicit-version functions are edited only together with a version bump (of every explicit function reaching the edit); unsupported variable types and helpers in other packages are outside the statement.",
     "DESIGN.md §3 C01")
 
+CHECKS["C03"] = ("model_checking",
+    "exhaustive enumeration of (program x hash seed x definition-order permutation x import order x first-query-order permutation) configurations, each executed in a real interpreter started with that PYTHONHASHSEED",
+    "For the C01 program skeletons plus constant-heavy, same-leaf-in-two-namespaces and in-place-fill programs: one fresh interpreter per seed (quick 9, thorough 33 seeds) imports every program under every permutation of the definition order of its functions and module-level statements, both import orders, and queries versions in every order; each function must have exactly one version over the whole matrix. Then a second process with a different seed and reversed definition order re-runs all roots on the store the first filled: zero function bodies, equal values.",
+    "Hash seeds are a finite stated subset of 2^32 (the run fails as vacuous unless at least two distinct set iteration orders were exercised); programs come from the skeleton family.",
+    "DESIGN.md §3 C03")
+
 PENDING = {}
 
 
